@@ -1,9 +1,11 @@
 /-
 Line protocol for the discoverer model (stateful): `dnew <key>:<obj|*>:<s,s|->…`, `dbus oc|od u/c`,
-`dbus sc|sd u/c/s/sc`, `ddrain`, `dstate`, `dreset`.
+`dbus sc|sd u/c/s/sc`, `ddrain`, `dstate`, `dreset`; stateless: `lft <cookie> <c<k>|d>… | <c<k>|d>…` (a lifetime bound
+to `cookie` after the operations before the bar, asked after those behind it: `ended` / `pending`).
 -/
 import Driver.Text
 import Aldrin.Model.Discoverer
+import Aldrin.Model.Lifetime
 
 namespace Aldrin.Driver
 open Aldrin Aldrin.Broker Aldrin.Disc
@@ -33,6 +35,26 @@ def sortStrings (l : List String) : List String := l.mergeSort (fun a b => a ≤
 
 def devText (e : DEvent) : String :=
   s!"{e.key}:{match e.kind with | .created => "C" | .destroyed => "D"}:{e.obj.uuid}/{e.obj.cookie}"
+
+def parseBOp (s : String) : Option Lifetime.BOp :=
+  if s = "d" then some .destroy
+  else if s.startsWith "c" then (s.drop 1).toNat?.map .create
+  else none
+
+def lifetimeCmd (args : List String) : Option String :=
+  match args with
+  | t :: rest => do
+    let t ← t.toNat?
+    let pre ← (rest.takeWhile (· ≠ "|")).mapM parseBOp
+    let post ← ((rest.dropWhile (· ≠ "|")).drop 1).mapM parseBOp
+    match ({} : Lifetime.Bus).run pre with
+    | none => pure "bad-history"
+    | some b1 =>
+      match b1.run post with
+      | none => pure "bad-history"
+      | some _ =>
+        pure (if (Lifetime.run t {} (Lifetime.currentEvents b1 ++ Lifetime.eventsFrom b1 post)).ended then "ended" else "pending")
+  | [] => none
 
 def discCmd (d : Option Disc) (cmd : String) (args : List String) : Option (Option Disc × String) :=
   match cmd, args with
@@ -64,6 +86,8 @@ def discCmd (d : Option Disc) (cmd : String) (args : List String) : Option (Opti
   | "dreset", [] => do
     let d ← d
     pure (some d.reset, "ok")
+  | "lft", args => do
+    pure (d, ← lifetimeCmd args)
   | _, _ => none
 
 end Aldrin.Driver
